@@ -392,7 +392,8 @@ def main(argv):
         print("VIOLATION property=%s replay=%s" % (prop, rp))
 
     wall = time.time() - t0
-    if not a.replay:
+    if not a.replay and os.path.realpath(a.root) == "/repo":
+        # the evidence file describes /repo's working tree; a run on a scratch copy (--root) must not overwrite it
         write_evidence(prop, tier, seed, ctx, counts, viol, kf, wres, configs, wall, prog)
 
     if wbroken:
